@@ -1604,6 +1604,8 @@ class Interp:
             return not_(and_(not_(args[0]), not_(args[1])))
         if name.endswith("logical_and.outer") and len(args) == 2:
             return outer_and(ravel(args[0]), ravel(args[1]))
+        if n == "sum" and args and is_term(args[0]) and args[0][0] == "tab" and isinstance(args[0][2], Poly) and not kw:
+            return sum_over(args[0][1], args[0][2], f"k{CUR_DEPTH[0]}")
         if n in ("sum", "count_nonzero") and args:
             a = args[0]
             if is_term(a) and dtype(a) == "bool" and not {"axis"} & set(kw):
@@ -1614,7 +1616,12 @@ class Interp:
             return unknown(f"{n} of an array of unknown element type")
         if n == "square" and args:
             p = as_poly(args[0])
-            return p * p if p is not None else unknown("square of an array")
+            if p is not None:
+                return p * p
+            a = args[0]
+            if is_term(a) and a[0] == "tab" and isinstance(a[2], Poly):
+                return tab(a[1], a[2] * a[2])          # elementwise square of a tabulated integer sequence
+            return unknown("square of an array")
         if n in ("int", "bool", "float", "abs") and args:
             return args[0]
         if n == "len" and args:
